@@ -319,11 +319,12 @@ func applyLen(s ssa.Value, op token.Token, c int, bf *blockFacts) {
 }
 
 type fnInfo struct {
-	rootParam *ssa.Parameter
-	rootMin   int
-	fn        *ssa.Function
-	facts     map[*ssa.BasicBlock]*blockFacts
-	loadVer   map[*ssa.UnOp]int
+	ignoreWrap bool // evaluate lower bounds as if narrow arithmetic never wrapped
+	rootParam  *ssa.Parameter
+	rootMin    int
+	fn         *ssa.Function
+	facts      map[*ssa.BasicBlock]*blockFacts
+	loadVer    map[*ssa.UnOp]int
 }
 
 // intLB: lower bound of integer value using facts in ctx
@@ -354,12 +355,12 @@ func (fi *fnInfo) intLB(v ssa.Value, ctx *ssa.BasicBlock, depth int) int {
 		switch x.Op {
 		case token.ADD:
 			a, b := fi.intLB(x.X, ctx, depth+1), fi.intLB(x.Y, ctx, depth+1)
-			if a > -1<<39 && b > -1<<39 && a+b > best {
+			if a > -1<<39 && b > -1<<39 && a+b > best && !fi.mayWrap(x, ctx, depth) {
 				best = a + b
 			}
 		case token.MUL:
 			a, b := fi.intLB(x.X, ctx, depth+1), fi.intLB(x.Y, ctx, depth+1)
-			if a >= 0 && b >= 0 && a*b > best {
+			if a >= 0 && b >= 0 && a*b > best && !fi.mayWrap(x, ctx, depth) {
 				best = a * b
 			}
 		case token.SUB:
@@ -375,12 +376,147 @@ func (fi *fnInfo) intLB(v ssa.Value, ctx *ssa.BasicBlock, depth int) int {
 			best = 0
 		}
 	}
-	if sv != v { // conversion: keep bound of inner if inner unsigned/narrow
-		if in := fi.intLB(sv, ctx, depth+1); in > best {
+	if sv != v { // conversion: keep the bound of the inner value unless a narrowing conversion may truncate it
+		if in := fi.intLB(sv, ctx, depth+1); in > best && !narrows(v, sv, fi, ctx, depth) {
 			best = in
 		}
 	}
 	return best
+}
+
+// typeMax returns the maximum of a narrow unsigned integer type (0 = not narrow/unsigned).
+func typeMax(t types.Type) int {
+	b, ok := t.Underlying().(*types.Basic)
+	if !ok {
+		return 0
+	}
+	switch b.Kind() {
+	case types.Uint8:
+		return 255
+	case types.Uint16:
+		return 65535
+	case types.Uint32:
+		return 1<<32 - 1
+	}
+	return 0
+}
+
+// intUB: an upper bound of v, or -1 when none is known.
+func (fi *fnInfo) intUB(v ssa.Value, ctx *ssa.BasicBlock, depth int) int {
+	if depth > 6 {
+		return -1
+	}
+	if c, ok := constInt(v); ok {
+		return c
+	}
+	best := -1
+	if m := typeMax(v.Type()); m > 0 {
+		best = m
+	}
+	tighten := func(u int) {
+		if u >= 0 && (best < 0 || u < best) {
+			best = u
+		}
+	}
+	switch x := v.(type) {
+	case *ssa.Convert:
+		in := fi.intUB(x.X, ctx, depth+1)
+		if in >= 0 {
+			// a value that fits is unchanged by the conversion
+			if m := typeMax(x.Type()); m == 0 || in <= m {
+				tighten(in)
+			}
+		}
+	case *ssa.ChangeType:
+		tighten(fi.intUB(x.X, ctx, depth+1))
+	case *ssa.BinOp:
+		a, b := fi.intUB(x.X, ctx, depth+1), fi.intUB(x.Y, ctx, depth+1)
+		switch x.Op {
+		case token.ADD:
+			if a >= 0 && b >= 0 {
+				if m := typeMax(x.Type()); m == 0 || a+b <= m {
+					tighten(a + b)
+				}
+			}
+		case token.MUL:
+			if a >= 0 && b >= 0 && (a == 0 || b < 1<<40/(a+1)) {
+				if m := typeMax(x.Type()); m == 0 || a*b <= m {
+					tighten(a * b)
+				}
+			}
+		case token.AND:
+			if b >= 0 {
+				if c, ok := constInt(x.Y); ok {
+					tighten(c)
+				}
+			}
+			if c, ok := constInt(x.X); ok {
+				tighten(c)
+			}
+		case token.REM:
+			if c, ok := constInt(x.Y); ok && c > 0 {
+				tighten(c - 1)
+			}
+		case token.SHR:
+			if c, ok := constInt(x.Y); ok && a >= 0 && c >= 0 && c < 62 {
+				tighten(a >> uint(c))
+			}
+		case token.QUO:
+			if c, ok := constInt(x.Y); ok && c > 0 && a >= 0 {
+				tighten(a / c)
+			}
+		}
+	case *ssa.UnOp:
+		if x.Op == token.MUL {
+			// a byte loaded from a slice / a narrow field: bounded by its type
+		}
+	}
+	return best
+}
+
+// mayWrap: the addition/multiplication x is carried out in a narrow unsigned
+// type and its operands are not known to be small enough to fit.
+func (fi *fnInfo) mayWrap(x *ssa.BinOp, ctx *ssa.BasicBlock, depth int) bool {
+	if fi.ignoreWrap {
+		return false
+	}
+	m := typeMax(x.Type())
+	if m == 0 {
+		return false
+	}
+	a, b := fi.intUB(x.X, ctx, depth+1), fi.intUB(x.Y, ctx, depth+1)
+	if a < 0 || b < 0 {
+		return true
+	}
+	if x.Op == token.ADD {
+		return a+b > m
+	}
+	return a != 0 && (b > m/a)
+}
+
+// narrows: v converts sv to a narrower unsigned type that may not hold it.
+func narrows(v, sv ssa.Value, fi *fnInfo, ctx *ssa.BasicBlock, depth int) bool {
+	if fi.ignoreWrap {
+		return false
+	}
+	for cur := v; cur != sv; {
+		cv, ok := cur.(*ssa.Convert)
+		if !ok {
+			ct, ok := cur.(*ssa.ChangeType)
+			if !ok {
+				break
+			}
+			cur = ct.X
+			continue
+		}
+		if m := typeMax(cv.Type()); m > 0 {
+			if u := fi.intUB(cv.X, ctx, depth+1); u < 0 || u > m {
+				return true
+			}
+		}
+		cur = cv.X
+	}
+	return false
 }
 
 func (fi *fnInfo) keysOf(v ssa.Value, ctx *ssa.BasicBlock, depth int, out *[]string) {
